@@ -61,6 +61,19 @@ let parse_exts (s : string) : (n * byte list) list =
   List.map (fun e -> match String.split_on_char ':' e with
       | [o; h] -> (cn_of_string o, bytes_of_hex h) | _ -> failwith "ext") (String.split_on_char ',' s)
 
+(* array-backed equivalent of Base.Prog.input_of_exts for large dense extents (see ocaml/mp4.ml) *)
+let fast_input_of_exts (len : n) (exts : (n * byte list) list) : input =
+  let dense = List.fold_left (fun a (_, l) -> a + List.length l) 0 exts in
+  if dense <= 8192 then input_of_exts len exts else
+  let es = List.map (fun (o, l) -> let a = Array.of_list l in let zo = z_of_cn o in
+                      (zo, BZ.add zo (BZ.of_int (Array.length a)), a)) exts in
+  { ilen = len;
+    iget = (fun off -> let z = z_of_cn off in
+             let rec go = function
+               | [] -> byte_tab.(0)
+               | (o, e, a) :: r -> if BZ.leq o z && BZ.lt z e then a.(BZ.to_int (BZ.sub z o)) else go r in
+             go es) }
+
 let parse_cfg mx cum =
   { max_metadata_size = cn_of_string mx;
     cumulative_mdat_box_size = (if cum = "-" then None else Some (cn_of_string cum)) }
@@ -71,7 +84,7 @@ let lenient_of rd = (rd <> "strict")
 let setup rd mx cum len exts =
   let exts = parse_exts exts in
   let total = List.fold_left (fun a (_, l) -> a + List.length l) 0 exts in
-  (parse_cfg mx cum, lenient_of rd, input_of_exts (cn_of_string len) exts, nat_of_int (total / 8 + 4))
+  (parse_cfg mx cum, lenient_of rd, fast_input_of_exts (cn_of_string len) exts, nat_of_int (total / 8 + 4))
 
 let show_event (e : ievent) : string =
   let off = string_of_cn e.ie_off in
@@ -114,7 +127,7 @@ let run_tiles args = match args with
   | [_rd; _mx; cum; len; exts] ->
     let exts = parse_exts exts in
     let total = List.fold_left (fun a (_, l) -> a + List.length l) 0 exts in
-    let inp = input_of_exts (cn_of_string len) exts in
+    let inp = fast_input_of_exts (cn_of_string len) exts in
     let cumo = (if cum = "-" then None else Some (cn_of_string cum)) in
     (* Spec.tile with an explicit fuel (every box that is present has at least 8 bytes present); Spec.tiling's own fuel
        ilen/8 is a unary number and cannot be built for multi-GiB sparse streams *)
